@@ -246,14 +246,17 @@ struct MockWalker<'a> {
     caller_vals: BTreeMap<String, u32>,
     caller_valid: BTreeSet<String>,
     clears: Vec<String>,
+    /// successful `set_caller_register` calls, in order
     sets: Vec<(String, u64)>,
+    /// every name `set_caller_register` was called with
+    attempts: Vec<String>,
 }
 impl<'a> MockWalker<'a> {
     fn new(case: &'a Case) -> Self {
         let callee: BTreeMap<&str, u32> = case.regs.iter().map(|(n, v)| (n.as_str(), *v)).collect();
         let caller_vals = callee.iter().map(|(n, v)| (n.to_string(), *v)).collect();
         let caller_valid = CALLEE_SAVED.iter().filter(|r| callee.contains_key(**r)).map(|r| r.to_string()).collect();
-        MockWalker { case, callee, caller_vals, caller_valid, clears: vec![], sets: vec![] }
+        MockWalker { case, callee, caller_vals, caller_valid, clears: vec![], sets: vec![], attempts: vec![] }
     }
 }
 fn memoize(name: &str) -> Option<&'static str> {
@@ -276,9 +279,10 @@ impl<'a> FrameWalker for MockWalker<'a> {
         self.callee.get(name).map(|v| *v as u64)
     }
     fn set_caller_register(&mut self, name: &str, val: u64) -> Option<()> {
-        self.sets.push((name.to_string(), val));
+        self.attempts.push(name.to_string());
         let m = memoize(name)?;
         let v = u32::try_from(val).ok()?;
+        self.sets.push((name.to_string(), val));
         self.caller_valid.insert(m.to_string());
         self.caller_vals.insert(m.to_string(), v);
         Some(())
@@ -576,6 +580,7 @@ struct ImplOut {
     valid: BTreeMap<String, u32>,
     clears: Vec<String>,
     sets: Vec<(String, u64)>,
+    attempts: Vec<String>,
 }
 
 fn run_walk(c: &Case) -> Result<ImplOut, String> {
@@ -586,7 +591,7 @@ fn run_walk(c: &Case) -> Result<ImplOut, String> {
         let mut w = MockWalker::new(c);
         let r = sf.walk_frame(&module, &mut w);
         let valid = w.caller_valid.iter().map(|n| (n.clone(), *w.caller_vals.get(n).unwrap_or(&0))).collect();
-        ImplOut { ok: r.is_some(), valid, clears: w.clears, sets: w.sets }
+        ImplOut { ok: r.is_some(), valid, clears: w.clears, sets: w.sets, attempts: w.attempts }
     })
 }
 
@@ -613,7 +618,7 @@ impl Engine for Win {
             .into()
     }
     fn exhaustive_part(&self) -> Option<String> {
-        Some("all programs of <= 2 (quick) / <= 3 (thorough) tokens over the 36-token WIN alphabet and of <= 4 / <= 5 tokens over a 12-token core alphabet, each in a fixed environment; all 64 pairs of boundary size fields for fpo records".into())
+        Some("all programs of <= 2 (quick) / <= 3 (thorough) tokens over the 38-token WIN alphabet and of <= 4 / <= 5 tokens over a 12-token core alphabet, each in a fixed environment; all 64 pairs of boundary size fields for fpo records".into())
     }
 
     fn generate(&self, tier: Tier, rng: &mut Rng, emit: &mut dyn FnMut(String)) {
@@ -668,9 +673,11 @@ impl Engine for Win {
         if out.ok {
             let regs = out.valid.iter().map(|(n, v)| format!("{n}={v:x}")).collect::<Vec<_>>().join(",");
             let clears = out.clears.join(",");
+            let sets = out.sets.iter().map(|(n, v)| format!("{n}={v:x}")).collect::<Vec<_>>().join(",");
             res.out = format!(
-                "some {} clears:{}",
+                "some {} sets:{} clears:{}",
                 if regs.is_empty() { "-" } else { &regs },
+                if sets.is_empty() { "-" } else { &sets },
                 if clears.is_empty() { "-" } else { &clears }
             );
         } else {
@@ -679,7 +686,7 @@ impl Engine for Win {
 
         // ---- the property's oracle on the implementation alone
         // (1) only the six output registers are ever reported
-        for (n, _) in &out.sets {
+        for n in &out.attempts {
             if !SIX.contains(&n.as_str()) {
                 res.oracle.push(("win-non-output-set".into(), format!("set_caller_register({n:?}, ..) was called")));
             }
@@ -746,6 +753,19 @@ impl Engine for Win {
             )),
             (Some(k), true) => {
                 let dollar_clears = !out.clears.is_empty() && out.clears.iter().all(|n| n.starts_with('$'));
+                // every register the record sets is reported through set_caller_register (not left to
+                // whatever the walker forwards on its own)
+                if let Doc::Known(dk) = &doc {
+                    for (r, v) in dk {
+                        let last = out.sets.iter().rev().find(|(n, _)| n == r).map(|(_, v)| *v);
+                        if last != Some(*v as u64) {
+                            res.oracle.push((
+                                "win-doc-mismatch".into(),
+                                format!("documentation sets caller {r}={v:x}; set_caller_register calls: {:x?}", out.sets),
+                            ));
+                        }
+                    }
+                }
                 for r in SIX {
                     match (k.get(r), out.valid.get(r)) {
                         (Some(a), Some(b)) if a == b => {}
@@ -876,11 +896,11 @@ mod gen {
 
     pub const SIZES: [u32; 8] = [0, 1, 4, 8, 0x7fff_ffff, 0x8000_0000, 0xffff_fffc, 0xffff_ffff];
 
-    /// full WIN token alphabet (36 tokens)
-    pub const FULL: [&str; 36] = [
+    /// full WIN token alphabet (38 tokens)
+    pub const FULL: [&str; 38] = [
         "+", "-", "*", "/", "%", "@", "=", "^", ".undef", "$eip", "$esp", "$ebp", "$ebx", "$esi", "$edi", "$T0",
         ".cbParams", ".cbCalleeParams", ".cbSavedRegs", ".cbLocals", ".raSearch", ".raSearchStart", "0", "1", "4",
-        "-1", "+8", "2147483647", "-2147483648", "2147483648", "=$T0", "=4", "==", "foo", "$", "-",
+        "-1", "+8", "2147483647", "-2147483648", "2147483648", "=$T0", "=4", "==", "foo", "$", "-", "$a@", "@4",
     ];
     /// core alphabet for the longer exhaustive programs
     pub const CORE: [&str; 12] =
@@ -1040,6 +1060,7 @@ mod gen {
                         toks.remove(i);
                     }
                     1 => toks.insert(i, rng.pick(&FULL).to_string()),
+                    2 if rng.chance(1, 3) => toks[i] = format!("{}@", toks[i]), // '@' inside another token
                     2 => toks[i] = rng.pick(&FULL).to_string(),
                     _ => {
                         let j = rng.below(toks.len() as u64) as usize;
@@ -1089,7 +1110,7 @@ mod gen {
     }
 
     fn fixed_env() -> Env {
-        // esp = 0x1010, ebp = 0x1020; the stack holds pointers into itself so that `^` chains succeed
+        // esp = 0x1010, ebp = 0x1030 (so that esp+frame_size = 0x1024 differs from ebp+4); the stack holds pointers into itself so that `^` chains succeed
         let base = 0x1000u64;
         let mut mem = vec![];
         for i in 0..32u32 {
@@ -1105,7 +1126,7 @@ mod gen {
             regs: vec![
                 ("eip".into(), 0x40_1005),
                 ("esp".into(), 0x1010),
-                ("ebp".into(), 0x1020),
+                ("ebp".into(), 0x1030),
                 ("ebx".into(), 0xb0b0_b0b0),
                 ("esi".into(), 0x5151_5151),
                 ("edi".into(), 0xd1d1_d1d1),
